@@ -807,9 +807,118 @@ pub fn c04_case(rng: &mut Rng) -> CaseOut {
     out
 }
 
+/// C04, self-referential family: after `L(a,b) = CTX(a, L(b,a))` the class of L contains an e-node that mentions the class itself
+/// with permuted arguments; the unrolled context `CTX(a, CTX(b, L(a,b)))` is represented only through that union, and a rule whose
+/// left side is the unrolled context has to fire on it.
+pub fn c04_selfref_case(rng: &mut Rng) -> CaseOut {
+    let mut out = CaseOut::default();
+    let mut names: Vec<usize> = (0..5).collect();
+    rng.shuffle(&mut names);
+    let (a, b) = (format!("$p{}", names[0]), format!("$p{}", names[1]));
+    let leaf_op = *rng.pick(&["f", "k"]);
+    let leaf = |x: &str, y: &str| format!("({leaf_op} {x} {y})");
+    let ctx_kind = rng.below(4);
+    // context around a hole, mentioning one slot (or, kind 3, a pattern variable in place of the slot-carrying leaf)
+    let ctx = |slot: &str, hole: &str| -> String {
+        match ctx_kind {
+            0 | 3 => format!("(app (g {slot}) {hole})"),
+            1 => format!("(pair {hole} (g {slot}))"),
+            _ => format!("(idx {slot} {hole})"),
+        }
+    };
+    let pctx = |slot: &str, var: &str, hole: &str| -> String {
+        match ctx_kind {
+            3 => format!("(app {var} {hole})"),
+            _ => ctx(slot, hole),
+        }
+    };
+    let depth = rng.range(2, 3);
+    // pattern and the substitution that makes the unrolled term an instance
+    let (lhs, v_inst) = if depth == 2 {
+        (pctx("$s1", "?w1", &pctx("$s2", "?w2", "?v")), leaf(&a, &b))
+    } else {
+        (pctx("$s1", "?w1", &pctx("$s2", "?w2", &pctx("$s1", "?w1", "?v"))), leaf(&b, &a))
+    };
+    let inst_l = if depth == 2 { ctx(&a, &ctx(&b, &v_inst)) } else { ctx(&a, &ctx(&b, &ctx(&a, &v_inst))) };
+    let (rhs, inst_r) = match rng.below(5) {
+        0 => ("(u ?v)".to_string(), format!("(u {v_inst})")),
+        1 => ("(pair ?v ?v)".to_string(), format!("(pair {v_inst} {v_inst})")),
+        2 if ctx_kind != 3 => ("(w (k $s2 $s1))".to_string(), format!("(w (k {b} {a}))")),
+        3 if ctx_kind == 3 => ("(pair ?w2 (u ?w1))".to_string(), format!("(pair (g {b}) (u (g {a})))")),
+        _ => ("(app ?v d)".to_string(), format!("(app {v_inst} d)")),
+    };
+    let mut log = vec![];
+    let mut eg: EGraph<LSym> = EGraph::default();
+    let res = guard(|| -> AppliedId {
+        for _ in 0..rng.below(3) {
+            let d = small_term(rng, &[0, 1, 2]);
+            log.push(format!("add {}", d.text(&LSYM, &pname)));
+            eg.add_expr(to_rec::<LSym>(&LSYM, &d));
+        }
+        let l = leaf(&a, &b);
+        let r = ctx(&a, &leaf(&b, &a));
+        log.push(format!("union {l} = {r}"));
+        let x = eg.add_expr(RecExpr::parse(&l).unwrap());
+        let y = eg.add_expr(RecExpr::parse(&r).unwrap());
+        eg.union(&x, &y);
+        if rng.chance(1, 3) {
+            // the unrolled term inserted literally as well
+            log.push(format!("add {inst_l}"));
+            eg.add_expr(RecExpr::parse(&inst_l).unwrap());
+        }
+        x
+    });
+    let Ok(root) = res else {
+        out.inconclusive = Some("setup panicked (reported by C02/C08)".into());
+        return out;
+    };
+    log.push(format!("rule: {lhs} => {rhs}"));
+    let cj = J::obj(vec![("log", J::arr_s(&log)), ("instance", J::s(inst_l.clone())), ("expected", J::s(inst_r.clone()))]);
+    if !no_redundancy(&eg) {
+        out.inc("skipped_redundancy_in_egraph");
+        return out;
+    }
+    let il: RecExpr<LSym> = RecExpr::parse(&inst_l).unwrap();
+    if lookup_rec_expr(&il, &eg).map(|x| !eg.eq(&x, &root)).unwrap_or(true) {
+        out.inc("skipped_instance_not_represented");
+        return out;
+    }
+    let rw = Rewrite::<LSym>::new("planted", &lhs, &rhs);
+    if let Err(p) = guard(|| apply_rewrites(&mut eg, &[rw])) {
+        out.fail(Fail::panic("panic-in-apply", &p, "apply_rewrites", cj));
+        return out;
+    }
+    out.inc("plantings_judged");
+    out.inc("plantings_through_self_reference");
+    let ir: RecExpr<LSym> = RecExpr::parse(&inst_r).unwrap();
+    match guard(|| lookup_rec_expr(&ir, &eg)) {
+        Ok(Some(x)) => {
+            if !eg.eq(&x, &root) {
+                out.fail(Fail::new("instance-did-not-fire", "rhs-not-equal", format!("rule {lhs} => {rhs}: after one application {inst_r} is represented but not equal to the instance {inst_l} (present through the self-referential union)"), cj));
+                return out;
+            }
+        }
+        Ok(None) => {
+            out.fail(Fail::new("instance-did-not-fire", "rhs-not-represented", format!("rule {lhs} => {rhs}: after one application the right-hand instance {inst_r} of the instance {inst_l} (present through the self-referential union) is not represented"), cj));
+            return out;
+        }
+        Err(p) => {
+            out.fail(Fail::panic("panic-in-lookup", &p, "lookup of the right-hand instance", cj));
+            return out;
+        }
+    }
+    let mut hsh = 0;
+    for l in &log {
+        hsh = Rng::mix(hsh, crate::rng::fnv(l));
+    }
+    out.nontrivial = Some(hsh);
+    out.sample = Some(J::obj(vec![("mode", J::s("self-referential planting")), ("log", J::arr_s(&log)), ("expected", J::s(inst_r))]));
+    out
+}
+
 pub fn run(args: &Args, rep: &mut Rep) {
     if args.prop == "C04" {
-        drive(args, rep, |rng, _| c04_case(rng));
+        drive(args, rep, |rng, _| if rng.chance(1, 8) { c04_selfref_case(rng) } else { c04_case(rng) });
     } else {
         drive(args, rep, |rng, _| c05_case(rng));
     }
